@@ -34,6 +34,7 @@ def main():
     ap.add_argument("worktree")
     ap.add_argument("--features", default="")
     ap.add_argument("--name")
+    ap.add_argument("--demo-args", default="", help="raw extra cargo arguments for the demonstration, e.g. '--no-default-features --features tokio-runtime,mmap'")
     a = ap.parse_args()
     name = a.name or a.prop
     seed = os.path.join(a.worktree, "_seed")
@@ -50,6 +51,8 @@ def main():
         shutil.copytree("/repo/target", os.path.join(root, "target"))
         env = dict(os.environ, CARGO_NET_OFFLINE="true", CARGO_TARGET_DIR=os.path.join(root, "target"))
         feat = ["--features", a.features] if a.features else []
+        if a.demo_args:
+            feat = a.demo_args.split()
         os.makedirs(os.path.join(root, "tests"))
         demo_name = "seed_demo"
         shutil.copy(demo_src, os.path.join(root, "tests", demo_name + ".rs"))
